@@ -21,6 +21,9 @@ F_OPT = ("fn f(e: Option<u2>, acc: u8) -> u8 { let x: u8 = match e { None => 77,
          "let (hi, lo): (u8, u8) = <u16>::into(jet::multiply_8(acc, 7)); let s: u8 = jet::xor_8(lo, x); s }")
 
 
+F_UNIT = "fn f(e: u8, acc: ()) -> () { assert!(jet::lt_8(e, 200)); }"
+
+
 def build(chk):
     rng = chk.rng
     quick = chk.tier == "quick"
@@ -40,15 +43,17 @@ def build(chk):
                     continue
                 if variant == "witness-pair" and n > 32:
                     continue
-                for fname, ftext, ety in (("order", F_ORDER, ("U", 3)), ("panic", F_PANIC, ("U", 3)), ("pair", F_PAIR, ("T", (("U", 2), ("B",)))), ("opt", F_OPT, ("O", ("U", 1)))):
+                for fname, ftext, ety in (("order", F_ORDER, ("U", 3)), ("panic", F_PANIC, ("U", 3)), ("unit", F_UNIT, ("U", 3)), ("pair", F_PAIR, ("T", (("U", 2), ("B",)))), ("opt", F_OPT, ("O", ("U", 1)))):
                     if fname in ("pair", "opt") and (n > 16 or variant != "literal"):
                         continue
-                    if fname == "panic" and n > 32:
+                    if fname in ("panic", "unit") and n > 32:
+                        continue
+                    if fname == "unit" and variant not in ("literal", "witness"):
                         continue
                     lt = ("L", ety, k)
                     v = gen.gen_val(rng, lt)
                     els = [gen.gen_val(rng, ety) for _ in range(ln)]
-                    if fname == "panic" and ln > 0 and rng.random() < 0.5:
+                    if fname in ("panic", "unit") and ln > 0 and rng.random() < 0.5:
                         els[rng.randrange(ln)] = ("u", 3, 200)
                     lv = ("li", ety, k, tuple(els))
                     wits = []
@@ -82,7 +87,10 @@ def build(chk):
                         src = "{ let t: (bool, List<%s, %d>) = (true, %s); match t { (b, l) => l } }" % (gen.ty_src(ety), n, gen.val_src(lv))
                         src = "{ let (b, l): (bool, List<%s, %d>) = (witness::B, %s); match b { true => l, false => list![], } }" % (gen.ty_src(ety), n, gen.val_src(lv))
                         wits.append(("B", ("B",), ("b", rng.random() < 0.8)))
-                    if variant == "witness-pair":
+                    if fname == "unit":
+                        # an accumulator of unit type: the fold is there for its effects only
+                        text = "%s\nfn main() { let l: List<u8, %d> = %s; fold::<f, %d>(l, ()); let r: u8 = %d; assert!(jet::eq_8(r, witness::EXPECT)); }" % (ftext, n, src, n, rng.randrange(256))
+                    elif variant == "witness-pair":
                         text = ("%s\nfn main() { let (i0, l, x0): (u8, List<%s, %d>, u8) = witness::P; let r0: u8 = fold::<f, %d>(l, i0); let r: u8 = jet::xor_8(r0, x0); "
                                 "assert!(jet::eq_8(r, witness::EXPECT)); }") % (ftext, gen.ty_src(ety), n, n)
                     else:
